@@ -226,6 +226,27 @@ func propC07SampledWith(rec *hx.Recorder) func(*rapid.T) {
 		st := newFECStream(d, p, start, 0xfeed)
 		dec := kcp.VerifNewFECDecoder(d, p)
 		dec.Seek(start)
+		// a decoder with a history: configured with another ratio, it has adopted
+		// this sender's ratio from an uninterrupted run of earlier groups of the
+		// same stream. From then on it owes exactly what a fresh decoder owes.
+		retuned := false
+		if n <= 40 && rapid.IntRange(0, 2).Draw(rt, "history") == 0 {
+			d2, p2 := rapid.IntRange(1, 12).Draw(rt, "histD"), rapid.IntRange(1, 4).Draw(rt, "histP")
+			pre := uint32(((258+3*n)/n + 2) * n)
+			if (d2 != d || p2 != p) && start >= pre {
+				st2 := newFECStream(d, p, start-pre, 0xfeed)
+				dec2 := kcp.VerifNewFECDecoder(d2, p2)
+				dec2.Seek(start - pre)
+				for g := uint32(0); g < pre/uint32(n); g++ {
+					for _, pk := range st2.group([]int{90, 91, 92, 93}, false) {
+						dec2.Release(dec2.Decode(pk.Raw))
+					}
+				}
+				if s2 := dec2.State(); s2.DecData == d && s2.DecParity == p && !s2.ShouldTune {
+					st, dec, retuned = st2, dec2, true
+				}
+			}
+		}
 		sizesKind := rapid.IntRange(0, 3).Draw(rt, "sizes")
 		type gstate struct {
 			pk      []fecPkt
@@ -334,7 +355,10 @@ func propC07SampledWith(rec *hx.Recorder) func(*rapid.T) {
 		if d+p > 20 {
 			cl = append(cl, "large_ratio")
 		}
-		rec.Case(hx.Hash64(d, p, start, sched), recovered > 0 && (dups > 0 || interleaved > ngroups || uint64(start)+uint64(n*ngroups) >= uint64(paws)), cl...)
+		if retuned {
+			cl = append(cl, "decoder_re_tuned_from_another_ratio")
+		}
+		rec.Case(hx.Hash64(d, p, start, sched, retuned), recovered > 0 && (dups > 0 || interleaved > ngroups || uint64(start)+uint64(n*ngroups) >= uint64(paws)), cl...)
 		if rec.WantSample() {
 			rec.Sample(map[string]any{"d": d, "p": p, "start": start, "groups": ngroups, "arrivals": len(sched), "recovered": recovered})
 		}
